@@ -922,3 +922,178 @@ Proof.
   rewrite Hl. cbn [fst]. unfold m_read, m_set, m_mut. proj_simpl. rewrite Hh, ent_get_set_none.
   repeat split; reflexivity.
 Qed.
+
+(** * An iterator yields the snapshot taken at its creation (specification machine,
+      any interleaving of operations of its generation) *)
+
+Definition sg_step (o : op) (g : sgen) : sgen * out :=
+  match o with
+  | OInsert k v => s_insert k v g
+  | OGet k => s_get k g
+  | ORead h => s_read h g
+  | OSet h v => s_set h v g
+  | OMut h v => s_mut h v g
+  | ODelete k => s_delete k g
+  | ODeletePrefix k => s_delete_prefix k g
+  | OIter k => s_iter k g
+  | ONext i => s_next i g
+  | ODelIter i => s_deliter i g
+  | _ => (g, RSkip)
+  end.
+
+(** What the [ONext i] operations of a history return: [Some key] or [None] (exhausted). *)
+Fixpoint sg_yields (i : nat) (ops : list op) (g : sgen) : list (option (list N)) :=
+  match ops with
+  | [] => []
+  | o :: r =>
+      let g' := fst (sg_step o g) in
+      match o with
+      | ONext j =>
+          if Nat.eqb j i
+          then (match snd (sg_step o g) with RNext k _ _ => Some k | _ => None end) :: sg_yields i r g'
+          else sg_yields i r g'
+      | _ => sg_yields i r g'
+      end
+  end.
+
+(** The first [n] elements of the snapshot, then [None] for ever. *)
+Fixpoint snapshot_prefix (n : nat) (S : list (list N)) : list (option (list N)) :=
+  match n with
+  | O => []
+  | Datatypes.S n' =>
+      match S with
+      | [] => None :: snapshot_prefix n' []
+      | k :: S' => Some k :: snapshot_prefix n' S'
+      end
+  end.
+
+Definition not_deliter (i : nat) (o : op) : Prop :=
+  match o with ODelIter j => j <> i | _ => True end.
+
+(** Invariant: slot [i] holds the rest [S'] of the snapshot, all of whose keys are still
+    in the (sorted) map, and the keys under the prefix are those at creation. *)
+Record SnapInv (i : nat) (k : list N) (L0 : amap nat) (S' : list (list N)) (g : sgen) : Prop := {
+  SI_slot : nth_error (s_iters g) i = Some (Some (k, S'));
+  SI_sorted : ksorted (s_map g);
+  SI_same : a_iterate k (s_map g) = L0;
+  SI_sub : forall key, In key S' -> In key (map fst L0)
+}.
+
+Lemma nth_error_set_nth_other {A} (l : list A) i j x : i <> j -> nth_error (set_nth j x l) i = nth_error l i.
+Proof.
+  revert i j. induction l as [|a l IH]; intros [|i] [|j] H; cbn; try reflexivity; try congruence.
+  apply IH. congruence.
+Qed.
+
+Lemma nth_error_set_nth_same {A} (l : list A) i x y :
+  nth_error l i = Some y -> nth_error (set_nth i x l) i = Some x.
+Proof. revert i. induction l as [|a l IH]; intros [|i] H; cbn in *; try discriminate; auto. Qed.
+
+Lemma SnapInv_map_change i k L0 S' g m' :
+  SnapInv i k L0 S' g -> ksorted m' -> a_iterate k m' = a_iterate k (s_map g) ->
+  forall ents, SnapInv i k L0 S' (s_with_ents (s_with_map g m') ents).
+Proof. intros [A B C D] Hs Hsame ents. constructor; proj_simpl; auto. congruence. Qed.
+
+Lemma SnapInv_prefix_unlocked i k L0 S' g key :
+  SnapInv i k L0 S' g -> s_locked key g = false -> is_prefix k key = false.
+Proof. intros H HL. eapply locked_false_roots; [exact HL|]. eapply live_roots_in. apply H. Qed.
+
+Lemma SnapInv_step i k L0 S' g o :
+  SnapInv i k L0 S' g -> not_deliter i o ->
+  match o with
+  | ONext j =>
+      if Nat.eqb j i then
+        match S' with
+        | [] => snd (sg_step o g) = RNone /\ SnapInv i k L0 [] (fst (sg_step o g))
+        | key :: S'' => (exists h v, snd (sg_step o g) = RNext key h v) /\ SnapInv i k L0 S'' (fst (sg_step o g))
+        end
+      else SnapInv i k L0 S' (fst (sg_step o g))
+  | _ => SnapInv i k L0 S' (fst (sg_step o g))
+  end.
+Proof.
+  intros HI Hnd. pose proof HI as [A B C D].
+  destruct o; cbn [sg_step]; try exact HI.
+  - (* insert *)
+    unfold s_insert. destruct (s_locked k0 g) eqn:EL; [exact HI|].
+    pose proof (SnapInv_prefix_unlocked _ _ _ _ _ _ HI EL) as Hp.
+    destruct (a_lookup k0 (s_map g)); cbn [fst].
+    + constructor; proj_simpl; auto.
+    + constructor; proj_simpl; auto.
+      * apply ksorted_insert. assumption.
+      * rewrite a_iterate_insert_other by assumption. assumption.
+  - unfold s_get. destruct (a_lookup k0 (s_map g)); cbn [fst]; [constructor; proj_simpl; auto | exact HI].
+  - unfold s_read. destruct (nth_error (s_handles g) h); exact HI.
+  - unfold s_set. destruct (nth_error (s_handles g) h); [|exact HI].
+    destruct (ent_get (s_ents g) n); [|exact HI]. cbn [fst]. constructor; proj_simpl; auto.
+  - unfold s_mut. destruct (nth_error (s_handles g) h); [|exact HI].
+    destruct (ent_get (s_ents g) n); [|exact HI]. cbn [fst]. constructor; proj_simpl; auto.
+  - (* delete *)
+    rewrite s_delete_eq. destruct (is_nil (s_map g)); [exact HI|].
+    destruct (s_locked k0 g) eqn:EL; [exact HI|].
+    pose proof (SnapInv_prefix_unlocked _ _ _ _ _ _ HI EL) as Hp.
+    destruct (a_lookup k0 (s_map g)); [|exact HI]. cbn [fst].
+    constructor; proj_simpl; auto.
+    + apply ksorted_filter. assumption.
+    + rewrite a_iterate_delete_other by assumption. assumption.
+  - (* delete_prefix *)
+    rewrite s_delete_prefix_eq. destruct (is_nil (s_map g)); [exact HI|].
+    destruct (s_locked2 k0 g) eqn:EL; [exact HI|].
+    destruct (is_nil (a_iterate k0 (s_map g))); [exact HI|]. cbn [fst].
+    destruct (locked2_false_roots k0 g k EL (live_roots_in _ _ _ _ A)) as [X Y].
+    constructor; proj_simpl; auto.
+    + apply ksorted_filter. assumption.
+    + rewrite a_iterate_delete_prefix_other by assumption. assumption.
+  - (* iter *)
+    rewrite s_iter_eq. destruct (is_nil (a_iterate k0 (s_map g))); [exact HI|].
+    destruct (s_count k0 g =? MAXC); [exact HI|]. cbn [fst].
+    constructor; proj_simpl; auto.
+    rewrite nth_error_app1; [assumption|]. apply nth_error_Some. congruence.
+  - (* next *)
+    unfold s_next. destruct (Nat.eqb_spec i0 i) as [->|Hne].
+    + rewrite A. destruct S' as [|key S''].
+      * split; [reflexivity | exact HI].
+      * assert (Hin : In key (map fst L0)) by (apply D; left; reflexivity).
+        apply in_map_iff in Hin as [[key' e] [Hk Hin]]. cbn in Hk. subst key'.
+        rewrite <- C in Hin. apply filter_In in Hin as [Hin _].
+        rewrite (ksorted_in_lookup key e (s_map g) B Hin). cbn [fst snd].
+        split; [eauto|]. constructor; proj_simpl; auto.
+        -- eapply nth_error_set_nth_same. eassumption.
+        -- intros x Hx. apply D. right. exact Hx.
+    + destruct (nth_error (s_iters g) i0) as [[[p rem]|]|]; try exact HI.
+      destruct rem as [|key rem']; [exact HI|].
+      destruct (a_lookup key (s_map g)); [|exact HI]. cbn [fst].
+      constructor; proj_simpl; auto. rewrite nth_error_set_nth_other by congruence. assumption.
+  - (* delete_iter *)
+    cbn [not_deliter] in Hnd. unfold s_deliter.
+    destruct (nth_error (s_iters g) i0) as [[[p rem]|]|]; try exact HI. cbn [fst].
+    constructor; proj_simpl; auto. rewrite nth_error_set_nth_other by congruence. assumption.
+Qed.
+
+Lemma sg_yields_snapshot i k L0 ops : forall S' g,
+  SnapInv i k L0 S' g -> Forall (not_deliter i) ops ->
+  sg_yields i ops g = snapshot_prefix (length (sg_yields i ops g)) S'.
+Proof.
+  induction ops as [|o ops IH]; intros S' g HI Hops; [reflexivity|].
+  inversion Hops as [|? ? Ho Hrest]; subst.
+  pose proof (SnapInv_step i k L0 S' g o HI Ho) as HS.
+  cbn [sg_yields]. destruct o; try (apply IH; assumption).
+  destruct (Nat.eqb i0 i).
+  - destruct S' as [|key S''].
+    + destruct HS as [Hout HI']. rewrite Hout. cbn [length snapshot_prefix]. f_equal. apply IH; assumption.
+    + destruct HS as [(h & v & Hout) HI']. rewrite Hout. cbn [length snapshot_prefix]. f_equal. apply IH; assumption.
+  - apply IH; assumption.
+Qed.
+
+(** Creation: [s_iter] stores exactly the keys under the prefix. *)
+Theorem iterator_snapshot g k g1 i ops :
+  ksorted (s_map g) -> s_iter k g = (g1, RIter i) -> Forall (not_deliter i) ops ->
+  sg_yields i ops g1 =
+  snapshot_prefix (length (sg_yields i ops g1)) (map fst (a_iterate k (s_map g))).
+Proof.
+  intros Hs Hit Hops. rewrite s_iter_eq in Hit.
+  destruct (is_nil (a_iterate k (s_map g))); [discriminate|].
+  destruct (s_count k g =? MAXC); [discriminate|]. inversion Hit; subst.
+  apply (sg_yields_snapshot (length (s_iters g)) k (a_iterate k (s_map g))); [|assumption].
+  constructor; proj_simpl; auto.
+  rewrite nth_error_app2, Nat.sub_diag by lia. reflexivity.
+Qed.
